@@ -1,18 +1,18 @@
 ------------------------------ MODULE MCRespond ------------------------------
 (* Exhaustive check: the faithful Respond model satisfies C08 for every     *)
 (* produces list, default, Accept shape, method, declared codes and outcome, *)
-(* with and without the memoised format of the untyped flow.                *)
+(* with and without an API default producer.                                *)
 EXTENDS Respond
 
 CONSTANTS MaxProduces
 
-VARIABLES stage, cfg, rq, out, memo
-vars == <<stage, cfg, rq, out, memo>>
+VARIABLES stage, cfg, rq, out
+vars == <<stage, cfg, rq, out>>
 
 E(t, s, p) == [t |-> t, s |-> s, p |-> p]
 JSON   == E("application", "json", "")
 Pool   == { E("a", "x", ""), E("t", "p", ""), E("t", "p", "; charset=utf-8"), JSON, E("a", "x", ";q=1") }
-Defaults == { JSON, E("t", "p", "") }
+Defaults == { JSON, E("t", "p", ""), NoFormat }
 R(t, s, q) == [t |-> t, s |-> s, q |-> q]
 Accepts == { <<>>,
              << <<R("*", "*", 10)>> >>, << <<R("t", "*", 10)>> >>, << <<R("t", "p", 10)>> >>, << <<R("a", "x", 10)>> >>,
@@ -27,31 +27,36 @@ Registries == { <<"a/x", "t/p", "application/json">>, <<"a/x", "application/json
 
 Init == /\ stage = "produces"
         /\ cfg = [produces |-> <<>>, default |-> JSON, registry |-> <<>>, declared |-> <<200>>, realm |-> "API"]
-        /\ rq = [method |-> "GET", accept |-> <<>>] /\ out = [k |-> "value", code |-> 0, scripted |-> FALSE] /\ memo = <<>>
+        /\ rq = [method |-> "GET", accept |-> <<>>] /\ out = [k |-> "value", code |-> 0, scripted |-> FALSE]
 
 AddProduces == /\ stage = "produces" /\ Len(cfg.produces) < MaxProduces
                /\ \E e \in Pool : /\ \A i \in DOMAIN cfg.produces : cfg.produces[i] # e       \* produces is a set
                                   /\ cfg' = [cfg EXCEPT !.produces = Append(@, e)]
-               /\ UNCHANGED <<stage, rq, out, memo>>
-\* AddRoute appends the default when it is not (case-insensitively, as spelled) in the list
+               /\ UNCHANGED <<stage, rq, out>>
+\* AddRoute appends the default (if the API has one) when it is not, as spelled, in the list
 ChooseRest == /\ stage = "produces" /\ stage' = "request"
               /\ \E d \in Defaults, rg \in Registries, dc \in Declared :
-                    /\ Id(d) \in Range(rg)                                   \* the default producer exists
+                    \* precondition: a producer exists for the default, or (no default) for every declared type
+                    /\ IF d # NoFormat THEN Id(d) \in Range(rg)
+                       ELSE \A i \in DOMAIN cfg.produces : Id(cfg.produces[i]) \in Range(rg)
                     /\ cfg' = [cfg EXCEPT !.default = d, !.registry = rg, !.declared = dc,
-                                       !.produces = IF \E i \in DOMAIN @ : @[i] = d THEN @ ELSE Append(@, d)]
-              /\ UNCHANGED <<rq, out, memo>>
+                                       !.produces = IF d = NoFormat \/ \E i \in DOMAIN @ : @[i] = d THEN @ ELSE Append(@, d)]
+              /\ UNCHANGED <<rq, out>>
 ChooseRequest == /\ stage = "request" /\ stage' = "done"
-                 /\ \E m \in Methods, a \in Accepts, o \in Outcomes, untyped \in BOOLEAN :
-                       /\ rq' = [method |-> m, accept |-> a] /\ out' = o
-                       /\ memo' = IF untyped THEN MemoUntyped(cfg, [method |-> m, accept |-> a]) ELSE <<>>
+                 /\ \E m \in Methods, a \in Accepts, o \in Outcomes :
+                       rq' = [method |-> m, accept |-> a] /\ out' = o
                  /\ UNCHANGED cfg
 Next == AddProduces \/ ChooseRest \/ ChooseRequest
 Spec == Init /\ [][Next]_vars
 
 AtEnd == stage = "done"
-Obs   == RespondModel(cfg, rq, out, memo)
-\* the flows that reach Respond with a result have passed the 406 gate: something is negotiable
-Reaches == out.k = "error" \/ Negotiated(cfg, rq) # {}
+Obs   == RespondModel(cfg, rq, out)
+\* the flows that reach Respond with a result have passed the 406 gate: something is negotiable - or nothing is
+\* offered at all (no produces, no default), where only HEAD / 204 answers need no producer
+Reaches == \/ out.k = "error"
+           \/ Negotiated(cfg, rq) # {}
+           \/ /\ Offers(cfg) = {} /\ out.k \in {"value", "nil"}
+              /\ HasSuccess(cfg) => (rq.method = "HEAD" \/ MinSuccess(cfg) = 204)
 
 PropertyHolds ==
   (AtEnd /\ Reaches) =>
@@ -60,7 +65,7 @@ PropertyHolds ==
        [] out.k = "error"            -> AllowedError(cfg, rq, out, Obs)
 \* the transcription of the double loop picks one of the declaratively best offers
 NegotiationSound ==
-  AtEnd => LET f == Format(cfg, rq, memo) IN
+  AtEnd => LET f == Format(cfg, rq) IN
            IF Negotiated(cfg, rq) = {} THEN f = NoFormat ELSE f \in Negotiated(cfg, rq)
 
 \* non-vacuity witnesses (each must be violated)
